@@ -772,6 +772,39 @@ func (w *world) garble(q req) req {
 	return q
 }
 
+func (w *world) expire() {
+	dbms.VerifExpire()
+	w.tr.Emit(vh.E("Expire"))
+}
+
+// expiryEpisode: two-phase expiry of a nonce (and of the tokens around): a client
+// that knows the password gets a nonce, one or two expiry rounds pass, then it
+// authenticates with the right password over that nonce
+func (w *world) expiryEpisode() {
+	rc := w.raw[1] // connection 3
+	if rc.r.Dead || rc.authed || !rc.knows {
+		w.disconnect(rc)
+		w.connectRaw(3)
+		rc = w.raw[1]
+		rc.knows = true
+	}
+	sid := uint32(1 + w.rnd.Intn(3))
+	if cls, _ := w.do(rc, sid, req{code: int(commands.Nonce), variant: "episode", cr: noCred}); cls != "ok" {
+		return
+	}
+	for n := 1 + w.rnd.Intn(2); n > 0; n-- {
+		w.expire()
+	}
+	q := req{code: int(commands.Auth), variant: "good-hash-after-expiry",
+		cr:   cred{k: "hash", n: w.nonceId(rc.nonce), good: true},
+		body: enc().Str(cs.AuthString(goodUser, goodHash, rc.nonce)).B}
+	cls, body := w.do(rc, sid, q)
+	if cls == "ok" && len(body) > 0 && body[0] == 1 {
+		rc.authed = true
+	}
+	w.do(rc, sid, req{code: int(commands.Final), variant: "probe", cr: noCred})
+}
+
 // disconnect closes a protocol-level connection from the client side
 func (w *world) disconnect(rc *rawc) {
 	if rc.r.Dead {
@@ -858,8 +891,11 @@ func (w *world) scenario(steps, s int) {
 		case k < 5:
 			w.victimStep()
 		case k == 5 && s%3 == 2:
-			dbms.VerifExpire()
-			w.tr.Emit(vh.E("Expire"))
+			if w.rnd.Intn(2) == 0 {
+				w.expire()
+			} else {
+				w.expiryEpisode()
+			}
 		default:
 			rc := w.raw[w.rnd.Intn(len(w.raw))]
 			if rc.authed && w.rnd.Intn(6) == 0 {
